@@ -183,7 +183,8 @@ CLAIMED['C17'] = dict(
          'is a prefix of / equals the full sequence, times ordered, signals never raise before the process is reaped; the handle hangs '
          'IFF the worker died while writing a log record (C17_hang_iff; refuted/partial pair = the recorded known finding). PARTIAL: '
          'the executor, spawn and OS signals are an oracle; tie = the real matrix under spawn (outcomes x signals x instants x logging x '
-         'initializer, lingering children) compared with the model.',
+         'initializer, lingering children, a family of exception classes, awaiter storms) compared with the model. The findings about StopIteration / '
+         'concurrent.futures.CancelledError / exceptions that cannot be rebuilt were repaired (957cca5).',
     note='Trusted: Coq kernel; translator run_skeleton.py; harness. Modelled: ProcessPoolExecutor, multiprocessing queues, OS signals. Known finding hang:log-listener-never-ends. No axioms.',
     technique='Coq interpreter over a skeleton regenerated by an ast translator; real-process matrix correspondence', design='5/C17')
 CLAIMED['C05'] = dict(
@@ -201,7 +202,7 @@ CLAIMED['C04'] = dict(
          'from the source and proved to leave exactly the user frames (user traceback, compile-time SyntaxError, KeyboardInterrupt in a '
          'trace call), and the debugger model consumes the event stream without feeding back into it. Equality of stdout / return value / '
          'exception between a traced and an untraced run is a CPython guarantee that a model cannot exhibit: it is validated differentially '
-         '(generated programs x statement forms x resuming policies x flags, traced vs reference). Two recorded known findings (Ctrl-C at a prompt).',
+         '(generated programs incl. compile-flag/exec-environment sensitive ones and run-time SyntaxError families x statement forms x resuming policies x flags, traced vs reference). The two findings about Ctrl-C at a prompt were repaired (26c557e, b7c3381); their programs are regression guards.',
     note='Trusted: Coq kernel; translator tb_funs.py; reference runs. No axioms.',
     technique='Coq algebraic lemmas on tracebacks + differential runs', design='5/C04')
 
